@@ -50,6 +50,9 @@ POSITIONS = {
     "match_binding": ("inner", "value"),
     "match_binding_some": ("bound", "value"),
     "main_local": ("item", "value"),
+    "loop_var_mutated_through": ("member", "value"),
+    "mut_list_local": ("fleet", "value"),
+    "mut_param_mutated": ("target", "value"),
     "main_mut_local": ("tank", "value"),
 }
 
